@@ -562,3 +562,29 @@ func getChildAssertionProved(p *Program, env *visitorEnv, vm map[string]*ssa.Fun
 	}
 	return true, fmt.Sprintf("grammar fact, checked: in the alternative(s) of %v the child at the constant index is a token, so GetChild yields a terminal node (a parse tree reaches the visitor only when the listener recorded no syntax error: PARSE5)", roots)
 }
+
+// allConstMaps: constGlobalMaps of every repository package (computed once per program).
+func (p *Program) allConstMaps() map[string]map[string]aval {
+	if p.constMaps != nil {
+		return p.constMaps
+	}
+	out := map[string]map[string]aval{}
+	var rels []string
+	for path := range p.SSAPkg {
+		if strings.HasPrefix(path, mod+"/") {
+			rels = append(rels, strings.TrimPrefix(path, mod+"/"))
+		}
+	}
+	sort.Strings(rels)
+	for _, rel := range rels {
+		m, err := p.constGlobalMaps(rel)
+		if err != nil {
+			continue
+		}
+		for k, v := range m {
+			out[k] = v
+		}
+	}
+	p.constMaps = out
+	return out
+}
